@@ -1753,6 +1753,13 @@ class sptensor:
             keep_modes = np.array([], dtype=int)
         else:
             old_modes = parse_one_d(old_modes)
+            if (
+                not np.issubdtype(old_modes.dtype, np.integer)
+                or np.any(old_modes < 0)
+                or np.any(old_modes >= self.ndims)
+                or np.unique(old_modes).size != old_modes.size
+            ):
+                assert False, "old_modes must be distinct modes of the tensor"
             keep_modes = np.setdiff1d(np.arange(0, self.ndims, dtype=int), old_modes)
 
         shapeArray = np.array(self.shape)
